@@ -29,15 +29,15 @@ def gen_config(rng, tight=False, bw=False):
     c = dict(
         multipart_threshold=T,
         multipart_chunksize=C,
-        max_request_concurrency=small(rng, 1, 4, b),
+        max_request_concurrency=small(rng, 1, 5, b),
         max_submission_concurrency=small(rng, 1, 3, b),
         max_request_queue_size=small(rng, 1, 5, b),
         max_submission_queue_size=small(rng, 1, 4, b),
         max_io_queue_size=small(rng, 1, 4, b),
         io_chunksize=rng.randint(1, 8),
         num_download_attempts=wchoice(rng, [(1, 1), (2, 3), (3, 3), (5, 2)]),
-        max_in_memory_upload_chunks=small(rng, 1, 3, b),
-        max_in_memory_download_chunks=small(rng, 1, 3, b),
+        max_in_memory_upload_chunks=small(rng, 1, 5, b),
+        max_in_memory_download_chunks=small(rng, 1, 5, b),
         max_bandwidth=None,
     )
     if not tight and rng.random() < 0.15:
@@ -460,6 +460,11 @@ def _maybe_bandwidth(rng, sc, p=0.15):
 
 
 def gen_C04(rng):
+    if rng.random() < 0.2:
+        sc = contention(rng, 'down' if rng.random() < 0.7 else 'up')
+        sc['knobs']['latency'] = wchoice(rng, [('none', 2), ('random', 4), ('slow_first', 3),
+                                               ('slow_last', 1)])
+        return sc
     sc = base(rng, ALL_TYPES, nmax=4, tight=True, nsubs=2, reenter=True,
               short_reads=True, maxsize=30)
     _maybe_bandwidth(rng, sc)
@@ -564,9 +569,10 @@ def contention(rng, kind=None):
     cfg = sc['config']
     cfg['max_submission_concurrency'] = rng.choice([2, 3])
     cfg['max_submission_queue_size'] = rng.choice([2, 3, 5])
-    cfg['max_request_concurrency'] = rng.choice([1, 2, 3])
-    cfg['max_in_memory_download_chunks'] = rng.choice([1, 1, 2])
-    cfg['max_in_memory_upload_chunks'] = rng.choice([1, 1, 2])
+    cfg['max_request_concurrency'] = rng.choice([1, 2, 3, 4, 5])
+    cfg['max_in_memory_download_chunks'] = rng.choice([1, 1, 2, 3, 4, 5])
+    cfg['max_in_memory_upload_chunks'] = rng.choice([1, 1, 2, 3, 4])
+    cfg['max_request_queue_size'] = rng.choice([1, 2, 5, 1000])
     cfg['multipart_chunksize'] = rng.randint(1, 4)
     cfg['multipart_threshold'] = rng.randint(1, 6)
     while len(sc['transfers']) < 2:
